@@ -772,12 +772,68 @@ func b2i(b bool) int {
 	return 0
 }
 
+// oobAsymmetric (C19, fixed scenario): a session created WITHOUT FEC must refuse out-of-band calls for
+// its whole life — also after its peer (which has FEC on) has sent it FEC-framed datagrams, which
+// makes the library create a lazy 1/1 decoder on the receiving side.
+func (w *world) oobAsymmetric() {
+	g := w.g
+	w.hist++
+	w.ops = []string{"fixed: oob-asymmetric (a: no FEC, b: FEC 2/1)"}
+	w.netAB, w.netBA = nil, nil
+	w.aborted, w.modeled, w.leaveBlocked = false, false, false
+	w.cipher, w.ds, w.ps = "nil", 0, 0
+	w.seen = map[string]bool{}
+	conv := g.U32()
+	aAddr := &net.UDPAddr{IP: net.IPv4(10, 0, 0, 1), Port: 1000}
+	bAddr := &net.UDPAddr{IP: net.IPv4(10, 0, 0, 2), Port: 2000}
+	ca, cb := newMemConn(aAddr), newMemConn(bAddr)
+	sa, _ := kcp.NewConn3(conv, bAddr, nil, 0, 0, ca)
+	sb, _ := kcp.NewConn3(conv, aAddr, nil, 2, 1, cb)
+	w.a = &side{name: "a", s: sa, conn: ca, addr: aAddr}
+	w.b = &side{name: "b", s: sb, conn: cb, addr: bAddr}
+	w.mtu = [2]int{1400, 1400}
+	synctest.Wait()
+	check := func(when string) {
+		if err := sa.SendOOB([]byte("x")); err == nil {
+			w.viol("oob-accepted-without-fec", "SendOOB succeeded on a session created without FEC "+when)
+		}
+		if err := sa.SetOOBHandler(func([]byte) {}); err == nil {
+			w.viol("oob-accepted-without-fec", "SetOOBHandler succeeded on a session created without FEC "+when)
+		}
+		if n := sa.GetOOBMaxSize(); n != 0 {
+			w.viol("oob-accepted-without-fec", fmt.Sprintf("GetOOBMaxSize = %d on a session created without FEC %s", n, when))
+		}
+		synctest.Wait()
+	}
+	check("before any traffic")
+	w.now = 1000
+	w.write(w.b, [][]byte{w.payload(w.b, 300)})
+	w.write(w.b, [][]byte{w.payload(w.b, 300)})
+	w.pump(w.b)
+	for len(w.netBA) > 0 && !w.aborted {
+		p := w.netBA[0]
+		w.netBA = w.netBA[1:]
+		w.input(w.a, p)
+	}
+	check("after its peer sent it FEC-framed datagrams")
+	// whatever a emitted must still be plain KCP frames the peer reads as the stream (nothing injected)
+	w.readAll(w.a)
+	sa.Close()
+	sb.Close()
+	ca.Close()
+	cb.Close()
+	synctest.Wait()
+	w.o.Case("fixed-oob-asymmetric")
+	w.o.Res.Cases--
+}
+
 // Run is the component entry point.
 func Run(o *hx.Out, g *hx.Rng, tier string) {
 	o.Res.Rule = "a case is one history of two real sessions (settings, Write/Read incl. blocking, manual update, per-datagram fates, fair drain, Close); configurations cycle through every cipher constructor x a FEC grid; histories without cipher and FEC are compared op by op with the Lean session model, the others run implementation-side oracles only; distinct = distinct op sequences (hash)"
 	kcp.SystemTimedSched = &kcp.TimedSched{} // inert: no goroutines; Put only appends
 	kcp.SetEntropy(entropy{g.Fork()})
 	w := &world{o: o, g: g, tier: tier}
+	w.oobAsymmetric()
 	n := 240
 	if tier == "thorough" {
 		n = 4500
